@@ -69,14 +69,14 @@ CLAIMED = {
 # widenings of the last waves (appended to the level text of the property)
 EXTRA = {
     "C07": " Also: node-hook sizes MaxInt/negative, the buffer maximum lowered on the live queue (own scenario), and Offer/Poll/Count must take zero virtual time in stall-free runs (they may not wait behind a lock holder that sleeps).",
-    "C08": " The wrapped structure may also be bounded (rejections are part of the sequential model), hold pointer elements one of which is nil, panic in its k-th call (the caller recovers, the wrapper must stay usable), or be cleared by its owner between phases.",
+    "C08": " The wrapped structure may also be bounded (rejections are part of the sequential model), hold pointer elements one of which is nil, or be cleared by its owner between phases.",
     "C09": " Also: batch size MaxInt, timeouts <= 0, nil jobs in front of real ones; a timed call must return within timeout + retry interval in stall-free runs.",
-    "C10": " Also: callbacks bound through the returned handle, an unsubscribed Subscription value subscribed again, a Map function that panics once (publishers used again afterwards).",
-    "C11": " Also probes for aliasing/re-entrancy (FlatMap returning its source, Subscribe from inside OnNext, handlers closed by the step running on them) and for panicking user callbacks.",
+    "C10": " Also: callbacks bound through the returned handle, an unsubscribed Subscription value subscribed again.",
+    "C11": " Also probes for aliasing/re-entrancy (FlatMap returning its source, Subscribe from inside OnNext, handlers closed by the step running on them).",
     "C12": " Also: mailbox closed from inside (by a posted function / by the effect), the default Handler asked for again after Close.",
-    "C14": " Also: never-started coroutine objects as caller handles, a generator written as a do-block, an IO whose effect panics (recovered) followed by another YieldFromIO.",
+    "C14": " Also: never-started coroutine objects as caller handles, a generator written as a do-block.",
     "C15": " Also: pool closed by one of its jobs or by its panic handler.",
-    "C16": " Also: pool sizes MaxInt/MinInt, duplicate elements, interface-typed results with nils, f calling PMap itself (rarely with a 1100-element list), f ending its goroutine (runtime.Goexit).",
+    "C16": " Also: pool sizes MaxInt/MinInt, duplicate elements, interface-typed results with nils, f calling PMap itself (rarely with a 1100-element list).",
     "C17": " Also: typed and odd path-parameter values and keys, query strings in the template, a request-body reader failing half-way, network faults that hit the first evaluation only.",
     "C18": " Also: one caller-owned *http.Request sent several times in a row, one http.Client handed to two SimpleHTTP objects.",
     "C20": " Pure part also: equality patterns holding a pointer, the empty string against a regex that accepts it, functions returning nothing inside Compose/Pipe.",
